@@ -135,7 +135,7 @@ class Signature:
         return [f for f in self.funs if f[2] == sort]
 
 
-def make_signature(rng, prof, bool_args=True):
+def make_signature(rng, prof, bool_args=True, nconsts=(2, 4)):
     sig = Signature()
     p = PROFILES[prof]
     for i in range(p['usorts'] if p['usorts'] <= 1 else rng.randint(1, p['usorts'])):
@@ -143,9 +143,9 @@ def make_signature(rng, prof, bool_args=True):
     sig.consts['Bool'] = ['b%d' % i for i in range(rng.randint(2, 5))]
     for ns in p['nums']:
         pre = 'i' if ns == 'Int' else 'r'
-        sig.consts[ns] = ['%s%d' % (pre, i) for i in range(rng.randint(2, 4))]
+        sig.consts[ns] = ['%s%d' % (pre, i) for i in range(rng.randint(*nconsts))]
     for u in sig.sorts:
-        sig.consts[u] = ['%s_c%d' % (u.lower(), i) for i in range(rng.randint(2, 4))]
+        sig.consts[u] = ['%s_c%d' % (u.lower(), i) for i in range(rng.randint(*nconsts))]
     if p['uf']:
         cands = []
         base = list(sig.sorts) + list(p['nums'])
